@@ -112,6 +112,49 @@ def isTagEqual (n1 : Str) (a1 : List (Str × Option Str)) (n2 : Str) (a2 : List 
   (a1.all (fun p => (a2.map (·.1)).contains p.1) && a2.all (fun p => (a1.map (·.1)).contains p.1)) &&
   a1.all (fun p => pyGet a1 p.1 == pyGet a2 p.1)
 
+/-! ### Element identity: `AdvancedTag.__eq__`, `__ne__`, `__hash__`, `isEqualNode`
+
+  (Moved here from Props/C18.lean after review B, H3.)  The collection model above stores uids: that is justified by the
+  three functions below looking at nothing but the uid, so that the Python list primitives a `TagCollection` relies on
+  (`in`, `list.index`, `list.remove`: they compare with `==`) are the `Nat` versions on the uids — `pyIn`, `pyIndex`,
+  `pyRemove` below are those primitives on lists of elements, C18's `*_by_uid` theorems project them to the uid lists.
+  Namespace `Ident` (not `AHP.Elem`: other models have an `Elem` of their own). -/
+namespace Ident
+
+/-- Everything `==`, `!=`, `hash` and `isTagEqual` *could* look at: uid, tag name, attributes, and the content
+    (uids of the element blocks). -/
+structure Elem where
+  uid : Nat
+  name : Str
+  attrs : List (Str × Option Str)
+  content : List Nat
+  deriving Repr, Inhabited
+
+/-- `__eq__` (= `isEqualNode`): `self.uid == other.uid` (for `other` of the same class). -/
+def Elem.eq (a b : Elem) : Bool := a.uid == b.uid
+/-- `__ne__`: `self.uid != other.uid`. -/
+def Elem.ne (a b : Elem) : Bool := a.uid != b.uid
+/-- `__hash__`: `hash(self.uid)`; `h` is Python's `hash` on uid values (a parameter: only that it is a function
+    is modelled). -/
+def Elem.hash (h : Nat → Nat) (a : Elem) : Nat := h a.uid
+/-- `a.isTagEqual(b)` on elements: tag name and attributes only. -/
+def Elem.isTagEqual (a b : Elem) : Bool := AHP.isTagEqual a.name a.attrs b.name b.attrs
+
+/-- `x in l` for a Python list of elements (`list.__contains__`: identity or `==`). -/
+def pyIn (l : List Elem) (x : Elem) : Bool := l.any (fun y => y.eq x)
+
+/-- `l.index(x)`: position of the first element equal to `x`; `none` = ValueError. -/
+def pyIndex : List Elem → Elem → Option Nat
+  | [], _ => none
+  | y :: ys, x => if y.eq x then some 0 else (pyIndex ys x).map (· + 1)
+
+/-- `l.remove(x)`: the list without the first element equal to `x`; `none` = ValueError. -/
+def pyRemove : List Elem → Elem → Option (List Elem)
+  | [], _ => none
+  | y :: ys, x => if y.eq x then some ys else (pyRemove ys x).map (y :: ·)
+
+end Ident
+
 /-- The universe a collection lives in: a forest of element trees. -/
 abbrev Forest := List UTree
 
@@ -140,6 +183,10 @@ def getAllNodeUids (f : Forest) (c : Coll) : List Nat :=
 /-- `TagCollection.contains` / `containsUid`. -/
 def containsUid (f : Forest) (c : Coll) (y : Nat) : Bool :=
   c.items.any (fun x => f.containsUid x y)
+
+/-- `TagCollection.contains(em)`: `node.contains(em)` for each member, i.e. `node.containsUid(em.uid)`. -/
+def contains (f : Forest) (c : Coll) (em : Ident.Elem) : Bool :=
+  c.items.any (fun x => f.containsUid x em.uid)
 end Coll
 
 /-- `uniqueTags(tagList)`: the loop never fills `alreadyAdded`, so de-duplication is the
